@@ -96,7 +96,7 @@ def _descs(ctx, n):
 
 def correspond(ctx, corr, model_ok):
     from harness import battery
-    battery.run(corr, ['rx-take'])
+    battery.run(corr, ['rx-take', 'partial-request-cancel'])
     n = ctx.scale(220, 2500)
     runs, crashed = E.run_all(_descs(ctx, n))
     corr.oracle_failures.extend(crashed)
